@@ -13,7 +13,8 @@ CONSTANTS NStyles,    \* number of style ids ("s1" .. "sN")
           TailMode,   \* SpecEnum: what follows Load, Resolve, ToXML, Info on the same queried id:
                       \*   "none" nothing; "clone" CloneDrop, CloneSwap, Resolve (on the copy), MutRes;
                       \*   "rmr": the behaviour is Load, Resolve, <every registry-changing operation>, Resolve
-                      \*   (resolution must follow the registry: nothing remembered from an earlier call)
+                      \*   (resolution must follow the registry: nothing remembered from an earlier call);
+                      \*   "rmr+clone": both families
           Depth,      \* SpecGen: behaviour length
           OpNames     \* SpecMC/SpecGen: operation names explored
 
@@ -21,7 +22,7 @@ VARIABLES st, hist
 vars == <<st, hist>>
 
 IdSeq == [k \in 1..NStyles |-> "s" \o ToString(k)]   \* order of definition in Load
-TailOps == IF TailMode = "clone" THEN <<"CloneDrop", "CloneSwap", "Resolve", "MutRes">> ELSE <<>>
+TailOps == IF TailMode \in {"clone", "rmr+clone"} THEN <<"CloneDrop", "CloneSwap", "Resolve", "MutRes">> ELSE <<>>
 Ids == {IdSeq[i] : i \in 1..Len(IdSeq)}
 Bs  == Ids \cup {NONE, GHOST}           \* basedOn: any style (self included), none, an undefined id
 Qs  == Ids \cup {GHOST}                 \* queried ids, one of them never defined
@@ -33,7 +34,7 @@ OpsOf(s) ==
   \cup (IF "RemoveStyle" \in OpNames THEN {[op |-> "RemoveStyle", s |-> i] : i \in Qs} ELSE {})
   \cup (IF "Create" \in OpNames THEN {[op |-> "Create", s |-> i, b |-> b] : i \in Ids, b \in Bs} ELSE {})
   \cup {[op |-> n, q |-> q] : n \in OpNames \cap {"Resolve", "ToXML", "Info", "MutRes"}, q \in Qs}
-  \cup {[op |-> n] : n \in OpNames \cap CloneOps}
+  \cup {[op |-> n] : n \in OpNames \cap (CloneOps \cup {"List"})}
 
 Init == st = InitSt /\ hist = <<>>
 
@@ -52,7 +53,7 @@ GenOps(s, last) ==
   IF last THEN {op \in OpsOf(s) : op.op \notin Mutators}
   ELSE {op \in OpsOf(s) : op.op \in Mutators}
        \cup {[op |-> n, q |-> q, w |-> w] : n \in OpNames \cap {"Resolve", "ToXML", "Info", "MutRes"}, q \in Qs, w \in 1..ReadWeight}
-       \cup {[op |-> n, w |-> w] : n \in OpNames \cap CloneOps, w \in 1..ReadWeight}
+       \cup {[op |-> n, w |-> w] : n \in OpNames \cap (CloneOps \cup {"List"}), w \in 1..ReadWeight}
 NextGen == /\ Len(hist) < Depth
            /\ \E op \in GenOps(st, Len(hist) = Depth - 1) : st' = Apply(st, op) /\ hist' = Append(hist, op)
 SpecGen == Init /\ [][NextGen]_vars
@@ -116,14 +117,16 @@ RmrOf(bs, xs, ys, q, mu) ==
 InitEnum ==
   \E bs \in [Ids -> Bs], xs \in [Ids -> BOOLEAN], m \in YModes, q \in Qs :
     \E ys \in YOf(xs, m) :
-      /\ IF TailMode = "rmr"
-           THEN q \in Ids /\ \E mu \in MutOpsEnum(m) : hist = RmrOf(bs, xs, ys, q, mu)
-           ELSE hist = CaseOf(bs, xs, ys, q)
+      /\ \/ /\ TailMode \in {"rmr", "rmr+clone"}
+               /\ q \in Ids /\ \E mu \in MutOpsEnum(m) : hist = RmrOf(bs, xs, ys, q, mu)
+            \/ /\ TailMode # "rmr"
+               /\ hist = CaseOf(bs, xs, ys, q)
       /\ st = Apply(InitSt, hist[1])
 SpecEnum == InitEnum /\ [][UNCHANGED vars /\ FALSE]_vars
 
 \* the expected result is part of what the model checks on every enumerated input
-Inv_EnumSound == \A q \in Qs : ChainOK(st.reg, q) /\ NearestOK(st.reg, q) /\ StepLawOK(st.reg, q)
+Inv_EnumSound == \A q \in Qs : /\ ChainOK(st.reg, q) /\ NearestOK(st.reg, q) /\ StepLawOK(st.reg, q) /\ OwnerOK(st.reg, q)
+                               /\ Resolve(st.reg, q).found = (q \in DOMAIN st.reg)
 
 \* ---- generation: print each complete behaviour once ---------------------------------
 Emit     == Len(hist) < Depth \/ PrintT(<<"WZCASE", ToJson(hist)>>)
